@@ -242,9 +242,11 @@ def close(a, b, rel=1e-9, abs_=0.0):
 # --------------------------------------------------------------------------- misc
 @contextlib.contextmanager
 def scratch_dir(prefix="vf-", fast=False):
-    base = os.environ.get("VERIF_SCRATCH", "/var/tmp")
-    if fast and "VERIF_SCRATCH" not in os.environ and os.path.isdir("/dev/shm") and os.access("/dev/shm", os.W_OK):
-        base = "/dev/shm"  # tmpfs: workloads made of thousands of tiny directory trees
+    base = os.environ.get("VERIF_RUN_ROOT") or os.environ.get("VERIF_SCRATCH", "/var/tmp")
+    if fast and os.environ.get("VERIF_RUN_ROOT_FAST"):
+        base = os.environ["VERIF_RUN_ROOT_FAST"]  # tmpfs: workloads made of thousands of tiny directory trees
+    elif fast and "VERIF_RUN_ROOT" not in os.environ and "VERIF_SCRATCH" not in os.environ and os.path.isdir("/dev/shm") and os.access("/dev/shm", os.W_OK):
+        base = "/dev/shm"
     os.makedirs(base, exist_ok=True)
     d = tempfile.mkdtemp(prefix=prefix, dir=base)
     try:
